@@ -1,4 +1,6 @@
 import Ftp.Generated.SourceFacts
+import Ftp.Generated.UtilsFacts
+import Ftp.Model.Utils
 import Ftp.Props.C08
 /-
   C08, tie to the source by translation: the line-length limit passed to read_line in src/control_connection.cpp now is
@@ -8,5 +10,21 @@ namespace Ftp.Props.C08
 open Ftp
 
 theorem line_limit_is_the_sources : Reader.maxLine = Generated.ctlMaxLine := by decide
+
+/-- the narrowing parsers as they are written in src/utils.cpp now (translated on every run: the type whose maximum the
+    value is compared with, the type of the `static_cast`, the type of the result) are the model's bounded parsers: a value
+    is returned only if it fits, and it is returned unchanged - never wrapped by the narrowing conversion -/
+theorem narrowing_parsers_are_the_sources (s : Bytes) :
+    Generated.try_parse_uint8 s = Utils.parseU8 s ∧ Generated.try_parse_uint16 s = Utils.parseU16 s ∧
+    Generated.try_parse_uint32 s = Utils.parseU32 s := by
+  unfold Generated.try_parse_uint8 Generated.try_parse_uint16 Generated.try_parse_uint32
+    Utils.parseU8 Utils.parseU16 Utils.parseU32 Utils.parseBounded
+  refine ⟨?_, ?_, ?_⟩ <;> (cases Utils.parseU64 s with
+    | none => rfl
+    | some v =>
+      simp only
+      split
+      · rfl
+      · rename_i h; congr 1; omega)
 
 end Ftp.Props.C08
